@@ -37,7 +37,7 @@ ANCHORS = [
     "stereomolgraph.graphs.crg:CondensedReactionGraph.add_formed_bond",
 ]
 REQUIRED_ANCHORS = ANCHORS
-REQUIRED = ["transitions", "bfs_states", "random_history_ops", "query_battery_runs", "absent_key_queries", "remove_atom_with_descriptors", "op:relabel_atoms", "op:remove_atom", "op:set_atom_stereo_change"]
+REQUIRED = ["transitions", "bfs_states", "random_history_ops", "query_battery_runs", "absent_key_queries", "remove_atom_with_descriptors", "op:relabel_atoms", "op:remove_atom", "op:set_atom_stereo_change", "scale_histories"]
 CASE_TIMEOUT = 1600
 U = (0, 1, 2, 3)
 ABSENT = 7
@@ -224,6 +224,16 @@ def gen_cases(ctx):
     n = ctx.n(200, 5000)
     for i in range(n):
         yield {"kind": "random", "cls": CLASS_NAMES[(i + ctx.shard) % 4], "hseed": rng.randrange(1 << 30), "length": rng.choice([200, 200, 400, 800] if ctx.tier == "quick" else [200, 500, 1000, 2000])}
+    # (b') histories that start from a very long chain
+    from .. import gen
+
+    k = 0
+    for nsz in gen.SCALE_SIZES[ctx.tier]:
+        for cls in CLASS_NAMES:
+            hs = rng.randrange(1 << 30)
+            if k % ctx.nshards == ctx.shard:
+                yield {"kind": "random", "cls": cls, "hseed": hs, "length": 20, "scale": nsz}
+            k += 1
     # (c) thorough only: the repository's own tests as an ambient workload under the monitors
     if ctx.tier == "thorough" and ctx.shard == 0:
         yield {"kind": "ambient"}
@@ -419,6 +429,27 @@ def random_history(ctx, case):
     ids = list(range(10))
     g = classes()[cls]()
     M = sem.pg_empty(cls)
+    if case.get("scale"):
+        # the history starts from a very long chain built through the public mutators (n*n index arithmetic, deep traversals)
+        from .. import gen
+        from ..snapshot import build
+
+        M = gen.scale_pg(random.Random(case["hseed"] + 1), cls, case["scale"])
+        g = build(M, rng=random.Random(case["hseed"] + 2))
+        ids = sorted(M["atoms"])[:: max(1, len(M["atoms"]) // 40)] + [max(M["atoms"]) + 1 + k for k in range(5)]
+        ids = ids * (len(M["atoms"]) // len(ids) + 1)
+        ctx.count("scale_histories")
+        ctx.count(f"scale:{case['scale']}")
+        uni0 = tuple(sorted(M["atoms"])[:4]) + (ABSENT,)
+        diff = model.compare(g, M)
+        if diff:
+            ctx.violate(f"C09/model-mismatch/{cls}/build-large/{diff[0].split(':')[0]}", f"after building a {len(M['atoms'])}-atom chain: {diff[0]}", case)
+            return
+        for inv, text in model.coherence(g, uni0):
+            ctx.violate(f"C09/incoherent/{cls}/{inv}/after-build-large", f"after building a {len(M['atoms'])}-atom chain: {text}", case)
+            return
+        if not battery(ctx, g, cls, case, uni0, "after-build-large"):
+            return
     hist = []
     removals = desc_ops = 0
     for i in range(case["length"]):
@@ -427,6 +458,14 @@ def random_history(ctx, case):
             continue
         hist.append(op)
         uni = tuple(sorted(set(M["atoms"]) | {0, 1, ABSENT}, key=repr))[:6]
+        if case.get("scale"):
+            ok = step(ctx, g, M, cls, op, {**case, "length": i + 1}, uni, do_battery=(i % 10 == 9))
+            ctx.count("random_history_ops")
+            removals += op[0] in ("remove_atom", "remove_bond")
+            desc_ops += "stereo" in op[0]
+            if not ok:
+                return
+            continue
         hcase = {"kind": "history", "cls": cls, "history": hist[-60:] if len(hist) > 60 else list(hist), "note": "suffix of a random history" if len(hist) > 60 else "", "full": {"kind": "random", "cls": cls, "hseed": case["hseed"], "length": i + 1}}
         if len(hist) > 60:
             hcase = {"kind": "random", "cls": cls, "hseed": case["hseed"], "length": i + 1}
